@@ -483,7 +483,7 @@ def run_correspondence(prop, tier, seed, workdir, t_start, jobs, mod, evidence_p
             continue
         seen_keys.add(v.get('key'))
         nrep += 1
-        path = os.path.join(VERIF, 'replays', f'{prop}-{seed}-{nrep}.json')
+        path = os.path.join(REPLAYS, f'{prop}-{seed}-{nrep}.json')
         common.write_json(path, dict(v, property=prop, seed=seed, tier=tier, obligation=None,
                                      replay_cmd=f'./check {prop} --replay replays/{os.path.basename(path)}'))
         print(f'VIOLATION property={prop} replay={path}')
@@ -491,7 +491,7 @@ def run_correspondence(prop, tier, seed, workdir, t_start, jobs, mod, evidence_p
     if problems and rc == 0:
         # an obligation no longer checks and the campaign found no failing input
         nrep += 1
-        path = os.path.join(VERIF, 'replays', f'{prop}-{seed}-{nrep}.json')
+        path = os.path.join(REPLAYS, f'{prop}-{seed}-{nrep}.json')
         common.write_json(path, {'property': prop, 'kind': 'broken-obligation', 'seed': seed,
                                  'tier': tier, 'ops': None, 'obligation': problems,
                                  'correspondence_witness': broken_corr[:1],
